@@ -100,7 +100,19 @@ def check_theorem_file(pid, relpath):
         # Print Assumptions for EVERY theorem of the file, not only those that carry the command themselves
         mod = "Csvq." + relpath[:-2].replace("/", ".")
         apath = os.path.join(GEN, pid, "assumptions_%s.v" % pid)
-        open(apath, "w", encoding="utf-8").write("Require Import %s.\n" % mod + "".join("Print Assumptions %s.\n" % n for n in names))
+        # theorems stated inside a Module of the file are addressed by their qualified name
+        qual, stack = {}, []
+        for line in re.sub(r"\(\*.*?\*\)", "", txt, flags=re.S).splitlines():
+            m1 = re.match(r"\s*Module\s+(?:Import\s+|Export\s+)?([A-Za-z0-9_']+)\s*\.", line)
+            m2 = re.match(r"\s*End\s+([A-Za-z0-9_']+)\s*\.", line)
+            m3 = re.match(r"\s*(?:Theorem|Lemma|Example|Corollary)\s+([A-Za-z0-9_']+)", line)
+            if m1:
+                stack.append(m1.group(1))
+            elif m2 and stack and stack[-1] == m2.group(1):
+                stack.pop()
+            elif m3:
+                qual[m3.group(1)] = ".".join(stack + [m3.group(1)])
+        open(apath, "w", encoding="utf-8").write("Require Import %s.\n" % mod + "".join("Print Assumptions %s.\n" % qual.get(n, n) for n in names))
         rc2, out2 = sh(["timeout", "900", "coqc", "-Q", COQ, "Csvq", apath], cwd=os.path.join(GEN, pid), timeout=950)
         if rc2 == 0:
             out = out2
